@@ -49,6 +49,14 @@ def impl(case):
     import numpy as np
     import msmhelper as mh
     M = np.array([[float(Fraction(x)) for x in r] for r in case['M']], dtype=np.float64)
+    if case.get('prev'):
+        new = M
+        M = np.array([[float(Fraction(x)) for x in r] for r in case['prev']], dtype=np.float64)
+        try:
+            mh.msm.equilibrium_population(M, allow_non_ergodic=True)
+        except Exception:  # noqa
+            pass
+        M[:] = new      # same ndarray object, new contents
     v = mh.msm.equilibrium_population(M, allow_non_ergodic=case['allow'])
     v2 = mh.msm.peq(M, allow_non_ergodic=case['allow'])
     if np.iscomplexobj(v):
@@ -127,4 +135,5 @@ def nontrivial(case, ibc):
 def describe(case, ibc):
     r = next(iter(ibc.values()))
     return ['n:%d' % len(case['M']), 'style:' + case['style'].split('-')[0], 'allow:%s' % case['allow'],
-            'outcome:' + ('err-' + r['err'] if 'err' in r else 'vector')]
+            'outcome:' + ('err-' + r['err'] if 'err' in r else 'vector'),
+            'reused-buffer:%s' % bool(case.get('prev'))]
